@@ -38,7 +38,7 @@ def domains(tier):
     if tier == "quick":
         keep, seen = [], set()
         for d in D:
-            key = (d[0], d[1])
+            key = (d[0], d[1], d[2].startswith("Weighted"))       # index-dependent (weighted) penalties are kept for every solver
             if key in seen and d[0] != "AndersonCD":
                 continue
             seen.add(key)
@@ -74,7 +74,13 @@ def run_storage(comp, kind):
                     datafit.initialize(prob["X"] if sp.issparse(X) else X, y)
             from mc.core import derive_seed
             build.seed_numba(derive_seed("solve", comp["solver"]["name"], comp.get("datafit"), "storage", comp["X"]))
-            w, hist, sc = solver.solve(X, y, datafit, penalty)
+            w0 = Xw0 = None
+            if comp.get("w_init") is not None:                     # warm start with its consistent model fit (fresh buffers per storage)
+                w0 = np.array(comp["w_init"], dtype=float)
+                Xw0 = RC.linear_predictor(prob, w0)
+                if Xw0.ndim == 2:
+                    w0, Xw0 = np.ascontiguousarray(w0), np.asfortranarray(Xw0)
+            w, hist, sc = solver.solve(X, y, datafit, penalty, w0, Xw0)
         res.update(w=np.array(w, dtype=float), stop_crit=float(sc), obj_out=np.atleast_1d(np.array(hist, dtype=float)))
     except BaseException as e:
         if isinstance(e, (KeyboardInterrupt, SystemExit, MemoryError)):
@@ -137,6 +143,10 @@ def judge_group(comp, results):
     return out
 
 
+def R_first(pk, ps_list):
+    return ps_list[0]
+
+
 def comps_for(task, tier):
     s, dn, pk = task["solver"], task["datafit"], task["pen"]
     kind = R.KIND[dn]
@@ -150,7 +160,8 @@ def comps_for(task, tier):
                 continue
             Xeff = (X * y[:, None]).T if dn == "QuadraticSVC" else X
             fi_default = R.KNOBS.get(s, {}).get("fit_intercept", (False,))[0]
-            for ps in R.penalty_specs(pk, dspec, Xeff, y, fi_default, tier):
+            ps_list = R.penalty_specs(pk, dspec, Xeff, y, fi_default, tier)
+            for ps in ps_list:
                 kw = dict(c01.HARNESS_DEFAULTS.get(s, {}))
                 kw["tol"] = 1e-9 if s not in ("MultiTaskBCD",) else 1e-9
                 if s in ("FISTA",):
@@ -158,8 +169,22 @@ def comps_for(task, tier):
                 if s == "LBFGS":
                     kw["max_iter"] = 500
                 kw = R.fix_kw(s, dn, kw)
-                yield dict(solver=dict(name=s, kw=kw), datafit={k: v for k, v in dspec.items() if k != "layout"} if dspec else None,
-                           penalty=ps, X=X.tolist(), y=y.tolist(), xid=xid)
+                base = dict(solver=dict(name=s, kw=kw), datafit={k: v for k, v in dspec.items() if k != "layout"} if dspec else None,
+                            penalty=ps, X=X.tolist(), y=y.tolist(), xid=xid)
+                yield base
+                # the same problem from a warm start that is non-zero on every feature (zero columns included)
+                if s not in ("FISTA", "PDCD_WS", "LBFGS") and xid in ("tall6x3", "wide-zeromid") and ps is R_first(pk, ps_list):
+                    fi = bool(kw.get("fit_intercept", fi_default)) and s not in ("GramCD",)
+                    T = y.shape[1] if kind == "multi" else 0
+                    w0 = np.array([0.5, -1.0, 0.25, 2.0, -0.5][:Xeff.shape[1]] if dn != "QuadraticSVC" else [0.5, 0.1, 0.25, 0.0, 0.3, 0.2][:Xeff.shape[1]])
+                    if ps.get("positive") or ps["name"] in ("IndicatorBox", "PositiveConstraint"):
+                        w0 = np.abs(w0) * (min(1.0, ps.get("alpha", 1.0)) if ps["name"] == "IndicatorBox" else 1.0)
+                    if fi:
+                        w0 = np.append(w0, 0.3)
+                    if T:
+                        w0 = np.column_stack([w0 * (t + 1) for t in range(T)])
+                    if R.start_in_range(dn, Xeff, w0 if not T else None, fi):
+                        yield dict(base, w_init=w0.tolist(), xid=xid + "+warm")
 
 
 # --------------------------------------------------------------------------------------------- estimators
